@@ -63,6 +63,13 @@ def make_case(case, ctx):
         spec, feats, risk = gen.gen_net(rnd, pool=gen.SAFE_POOL, n_nodes=rnd.choice([2, 3, 4, 5]), max_types=2,
                                         depth=rnd.choice([0, 0, 1, 2]), same_type_bias=True, forbid=ctx['excluded'],
                                         edge_density=rnd.choice([0.2, 0.5, 1.0]))
+        # an edge declared without attributes ({}: default weight 1.0) - top-level edges only, so that update_var can address it
+        pl_ = [e_ for e_ in spec['circ'].get('edges', []) if e_[2] is None and set(e_[3]) <= {'weight'}]
+        if pl_ and rnd.random() < 0.4:
+            rnd.choice(pl_)[3].clear()
+            feats, risk = gen.features(spec)
+            if set(risk) & set(ctx['excluded']):
+                continue
         seq = [rnd.choice(OPS) for _ in range(rnd.randint(2, 7))]
         vecs = [rnd.random() < 0.4 for _ in seq]
         # vectorized compiles only on specs without C04 risks
@@ -222,7 +229,8 @@ def run_case(case, ctx):
                     new = tmpl.update_template(name='derived_c')
                     es_ = spec['circ'].get('edges', [])
                     if es_:
-                        e = rnd.choice(es_)
+                        bare = [x for x in es_ if not x[3]]            # declared without attributes ({}): default weight
+                        e = rnd.choice(bare) if bare and rnd.random() < 0.7 else rnd.choice(es_)
                         new.update_var(edge_vars=[(e[0], e[1], {'weight': 7.75})])
                         mech['derived_circuit_edge_modified'] = mech.get('derived_circuit_edge_modified', 0) + 1
                     consts_ = [k_ for k_ in ref.param_keys if ref.kind[k_] == 'const']
